@@ -175,7 +175,13 @@ def main():
             obs_list.append(obs)
             if getattr(stream, "MODEL", True):
                 pairs.append((stream.gcase(c), common.gal(obs)))
-            for msg in (stream.oracle(c, obs) if obs != "hang" else ["implementation did not return within the time limit"]):
+            try:
+                _msgs = stream.oracle(c, obs) if obs != "hang" else ["implementation did not return within the time limit"]
+            except common.Broken:
+                raise
+            except Exception as _e:  # noqa  -- an observation the oracle was not written for is reported with its case, not as a crash
+                _msgs = ["the direct oracle could not evaluate what the implementation did on this case (%s: %s)" % (type(_e).__name__, _e)]
+            for msg in _msgs:
                 if msg_filter is not None and not msg_filter.search(msg):
                     continue          # a clause of another property that shares this stream
                 kf = stream.classify(c, msg) if hasattr(stream, "classify") else None
